@@ -85,6 +85,47 @@ def wellformed(a, real):
     return bad
 
 
+PROBE_T = """<?xml version="1.0" encoding="UTF-8"?>
+<model xmlns="http://www.cellml.org/cellml/2.0#" xmlns:cellml="http://www.cellml.org/cellml/2.0#" name="m">
+  <component name="c">
+    %s
+    <math xmlns="http://www.w3.org/1998/Math/MathML">
+      %s
+    </math>
+  </component>
+</model>
+"""
+_V = '<variable name="%s" units="dimensionless"%s/>'
+_N = '<cn cellml:units="dimensionless">%s</cn>'
+PROBES = {
+    # h = x + sin(x) listed before / after h = 5, x initialised: the witness of Props.C05.not_orderIndependent
+    'C05-order-initialised-unknown': (
+        [_V % ('h', ''), _V % ('x', ' initial_value="3"')],
+        ['<apply><eq/><ci>h</ci><apply><plus/><ci>x</ci><apply><sin/><ci>x</ci></apply></apply></apply>', '<apply><eq/><ci>h</ci>%s</apply>' % (_N % 5)]),
+    # x + sin(x) = 9, x + y = 5, both initialised: a square system whose equations do not have the same unknowns
+    'C05-nla-unequal-unknowns': (
+        [_V % ('x', ' initial_value="1"'), _V % ('y', ' initial_value="2"')],
+        ['<apply><eq/><apply><plus/><ci>x</ci><apply><sin/><ci>x</ci></apply></apply>%s</apply>' % (_N % 9), '<apply><eq/><apply><plus/><ci>x</ci><ci>y</ci></apply>%s</apply>' % (_N % 5)]),
+}
+
+
+def probes(chk, hx, wd, oracle):
+    """the inputs of the known findings, replayed on the implementation (both listings of the equations)"""
+    kf = {f['id']: f for f in known_findings()['findings'] if f['property'] == 'C05'}
+    for pid, (vs, eqs) in PROBES.items():
+        types = []
+        for order in (eqs, eqs[::-1]):
+            fn = os.path.join(wd, 'probe.cellml'); text = PROBE_T % ('\n    '.join(vs), '\n      '.join(order)); open(fn, 'w').write(text)
+            r = analyse_real(hx, fn)
+            types.append(r['type'] if r else 'crash')
+        if types == ['nla', 'nla']:
+            continue
+        if pid in kf:
+            chk.known_finding(kf[pid]['what'])
+        else:
+            oracle.append(('the two-equation system %s is analysed as %s / %s (equations listed forwards / backwards), expected nla' % (eqs, types[0], types[1]), [text]))
+
+
 def run(chk, replay=None):
     lib = build_lib()
     hx = build_hx('hx_gencode', lib)
@@ -92,7 +133,7 @@ def run(chk, replay=None):
     chk.assumptions += [
         'the Lean model works on an abstraction of the CellML model (pygen/absys.py): equivalence classes in the order the analyser creates its internal variables, equations with the classes they mention and what stands alone on either side; member names are assumed unique across the model so that the name comparison of variableOnLhsRhs is a comparison of variables',
         'units analysis, issue texts, the pre-checks (several / initialised variables of integration, two initialised equivalent variables, non-first-order ODEs) and external variables (C20) are outside this model',
-        'order and renaming independence is checked on the implementation for every generated system (statement OrderIndependent in Props/C05.lean is not proved)',
+        'order and renaming independence is checked on the implementation for every generated system; for the model the full statement OrderIndependent is refuted by a concrete witness (Props.C05.not_orderIndependent: h = x + sin(x) with x initialised, listed before or after h = 5), which is replayed on the implementation and is the known finding C05-order-initialised-unknown',
         'components are taken in document order (generated models are flat)']
     chk.cov['trusted_base'] += ['harness/hx_gencode.cpp + lean/Cellml/Engine/Analyse.lean', 'pygen/absys.py (abstraction of CellML text, mirrors the traversal order of analyseNode)', 'pygen/models.py (ground-truth systems)']
     if not ok:
@@ -203,6 +244,8 @@ def run(chk, replay=None):
                         diff = [(sorted(x), base[x], c2.get(x)) for x in base if base[x] != c2.get(x)]
                         if diff:
                             oracle.append(('the classification changes when the model is %s: %s' % ('renamed and reordered' if rn else 'reordered', diff[:3]), [text, pt]))
+        if not replay:
+            probes(chk, hx, wd, oracle)
     finally:
         shutil.rmtree(wd, ignore_errors=True)
     model = run_lines_parallel(drv, ['analyse'], lines)[1] if os.path.exists(drv) and lines else []
